@@ -478,6 +478,7 @@ class OpGraph:
             return
         assert edge1.opics == edge2.opics, 'can only merge edges with same logical operators'
         # merge upstream nodes
+        assert edge2.nids[1-direction] not in self.nid_terminal, 'cannot merge a terminal node into another node'
         node1 = self.nodes[edge1.nids[1-direction]]
         node2 = self.nodes.pop(edge2.nids[1-direction])
         assert len(node1.eids[direction]) == 1, 'to-be merged upstream node can only have one input edge'
@@ -534,7 +535,10 @@ class OpGraph:
                     # can only merge nodes with same quantum numbers
                     if node1.qnum != node2.qnum:
                         continue
-                    # actually merge the edges
+                    # actually merge the edges (never absorbing a terminal node,
+                    # possible if the other node is not connected to that terminal)
+                    if node2.nid in self.nid_terminal:
+                        eid1, eid2 = eid2, eid1
                     self.merge_edges(eid1, eid2, direction)
                     return True
             # collect node IDs at next bond site
